@@ -19,6 +19,10 @@ SCHEDULERS = ["default", "singleton", "fresh_current", "immediate"]
 BUDGET = 400
 
 
+class PreludeBoom(Exception):
+    pass
+
+
 class Counter:
     def __init__(self):
         self.n = 0
@@ -155,7 +159,9 @@ class Prop:
         starving = rng.random() < 0.15
         return {"producer": rng.choice(PRODUCERS), "shape": rng.choice(STARVING if starving else SHAPES),
                 "term": rng.choice(TERMINATORS), "n": rng.randrange(1, 6), "scheduler": rng.choice(SCHEDULERS + ["default", "default"]),
-                "again": rng.random() < 0.35}  # subscribe the same observable object a second time after the first subscription ended
+                "again": rng.random() < 0.35,  # subscribe the same observable object a second time after the first subscription ended
+                # history of the thread: an earlier pipeline of two interleaved endless sources was abandoned because its observer raised
+                "prelude": rng.choice([None, None, None, None, 1, 2, 5])}
 
     def execute(self, sc):
         out = Outcome()
@@ -169,6 +175,24 @@ class Prop:
         term = "take_until" if sc["shape"] == "take_until_late_trigger" else sc["term"]
         obs = terminate(shape(sc["shape"], endless(sc["producer"], c)), term, sc["n"])
         sch = {"default": None, "singleton": CurrentThreadScheduler.singleton(), "fresh_current": CurrentThreadScheduler(), "immediate": ImmediateScheduler()}[sc["scheduler"]]
+        if sc.get("prelude"):
+            out.probes["prelude_abandoned_pipeline"] += 1
+            desc += " [after a pipeline on the same thread whose observer raised at its element %d]" % sc["prelude"]
+            seen = []
+
+            def raiser(v):
+                seen.append(v)
+                if len(seen) >= sc["prelude"]:
+                    raise PreludeBoom()
+
+            try:
+                rx.merge(endless("range", c), endless("range", c).pipe(ops.map(lambda v: -v))).subscribe(raiser)
+            except PreludeBoom:
+                pass
+            except (vt.Budget, RecursionError):
+                out.bad("did-not-terminate", "%s: the abandoned pipeline itself kept producing" % desc)
+                return out
+            c.n, c.after_return, c.returned = 0, 0, False
         for rnd in range(2 if sc.get("again") else 1):
             if rnd:
                 desc += " [second subscription of the same observable]"
@@ -184,6 +208,9 @@ class Prop:
                 return out
             except RecursionError:
                 out.bad("did-not-terminate", "%s: unbounded recursion (RecursionError) before the early termination took effect" % desc)
+                return out
+            except PreludeBoom:
+                out.bad("stale-work", "%s: work of the abandoned pipeline ran inside this subscribe() (its observer was called again)" % desc)
                 return out
             if c.after_return:
                 out.bad("produced-after-return", "%s: %d elements produced after subscribe() returned" % (desc, c.after_return))
